@@ -440,7 +440,7 @@ def main(argv):
         if per_fam[c.get('fam')] > 2 or len(violations) >= 10: continue
         spec_is_model = c.get('fam') in cfg.get('spec_is_model', []) or c.get('fam', '').split('.')[0] in cfg.get('spec_is_model', [])
         obj = dict(kind='correspondence', direction=direction, family=c.get('fam'), case={k2: v for k2, v in c.items() if k2 != 'impl'},
-                   impl=c.get('impl'), model=m, seed=seed, tier=tier, theorem=cfg.get('fam_theorem', {}).get(c.get('fam', '').split('.')[0], ''),
+                   impl=c.get('impl'), model=m, seed=seed, tier=tier, theorem=cfg.get('fam_theorem', {}).get(c.get('fam'), cfg.get('fam_theorem', {}).get(c.get('fam', '').split('.')[0], '')),
                    replay_cmd=f'bin/check {prop} --replay <this file>')
         if spec_is_model:
             obj['failing_input'] = True
